@@ -10,7 +10,7 @@ Defining == {"label", "macro", "scope", "zeroend", "localdef"}
 Next == ~done /\ ( (Len(pre) < MaxPre /\ \E k \in PreKinds : (k \in Defining => \A j \in 1..Len(pre) : pre[j] # k)
                                                               /\ pre' = Append(pre, k) /\ done' = FALSE)
                    \/ (done' = TRUE /\ pre' = pre) )
-Emit == ~done \/ \A fk \in FaultKinds, ind \in {0, 3}, tail \in {"more", "last", "eof"}, where \in {"main", "part"} :
+Emit == ~done \/ \A fk \in FaultKinds, ind \in {0, 3, 0 - 1}, tail \in {"more", "last", "eof", "inmacro"}, where \in {"main", "part"} :
           PrintT(ToJson([pre |-> pre, fault |-> fk, where |-> where, tail |-> tail, c |-> Case(pre, fk, ind, tail, where)]))
 Law == \A fk \in {"undef_operand", "bad_suffix"} : LocationLaw(pre, <<"blank">>, fk, 0) /\ LocationLaw(pre, <<"stmt", "stmt", "stmt">>, fk, 2)
 =============================================================================
